@@ -24,6 +24,9 @@ pub const ALPHABET: &[&str] = &[
     "(", ")", "[", "]", "{", "}", "=", "#", "<", "<=", ">", ">=", ":=", ":", ",", ";", "+", "-", "*", "/", "if", "else", "while",
     "array", "of", "ref", "var", "x", "int", "zz", "1", "0x1F", "'a'", "$",
 ];
+/// further spellings used as replacement/insertion tokens by the edit enumerations of C01/C02 (not part of the
+/// SplSession alphabet that is count-bound to TLC): literals outside the core of SPL
+pub const EXTRA_TOKENS: &[&str] = &["'\u{142}'", "'\u{20AC}'", "'\u{1F600}'", "99999999999", "0xFFFFFFFFF"];
 
 fn render_tokens(spells: &[String]) -> (String, Vec<usize>) {
     // canonical layout: one blank between tokens; returns text and the start byte of each token
